@@ -1,0 +1,42 @@
+//go:build verif
+
+// Contracts for package netconf, read by /verif/govc (contract-based deductive verification).
+// This file contains comments only; it adds no code to any build.
+
+package netconf
+
+// ---- C09: version negotiation -----------------------------------------------------------------------
+
+//@ spec hasCap(d *Driver, s string) bool := exists i int :: 0 <= i && i < len(d.serverCapabilities) && d.serverCapabilities[i] == s
+
+//@ func (*Driver).ServerHasCapability [C09]
+//@   pure
+//@   ensures result <==> hasCap(d, s)
+//@   loop 1 invariant -1 <= rangeindex && rangeindex < len(d.serverCapabilities)
+//@   loop 1 invariant forall j int :: 0 <= j && j <= rangeindex ==> d.serverCapabilities[j] != s
+
+// The decision table, written from the property statement: 1.1 exactly when the server advertises it and the
+// user did not ask for 1.0; 1.0 when that is all the server offers or what the user asked for and the server
+// offers it; a NETCONF error when the server advertises neither base capability or lacks the required version.
+//@ func (*Driver).determineVersion [C09]
+//@   let h10 = hasCap(d, "urn:ietf:params:netconf:base:1.0")
+//@   let h11 = hasCap(d, "urn:ietf:params:netconf:base:1.1")
+//@   let pref = d.PreferredVersion
+//@   modifies d.SelectedVersion, d.Channel.PromptPattern
+//@   ensures #table-success-iff (result == nil) <==> ((h10 || h11) && (pref == "1.0" ==> h10) && (pref == "1.1" ==> h11))
+//@   ensures #table-selected result == nil ==> d.SelectedVersion == ((h11 && pref != "1.0") ? "1.1" : "1.0")
+//@   ensures #error-class result != nil ==> isErr(result, util.ErrNetconfError)
+//@   ensures #delimiter-follows-version result == nil ==> d.Channel.PromptPattern == (d.SelectedVersion == "1.1" ? netconfPatternsInstance.v1Dot1Delim : netconfPatternsInstance.v1Dot0Delim)
+
+//@ func (*Driver).sendClientCapabilities [C09]
+//@   requires d.SelectedVersion == "1.0" || d.SelectedVersion == "1.1"
+//@   modifies wire
+//@   ensures #hello-matches-selected result == nil ==> wire == old(wire) ++ (d.SelectedVersion == "1.0" ? v1Dot0Caps : v1Dot1Caps) ++ d.Channel.ReturnChar
+
+//@ func (*Driver).ServerCapabilities [C09]
+//@   modifies nothing
+//@   ensures #copy result === d.serverCapabilities
+
+//@ func (*Driver).SessionID [C09]
+//@   pure
+//@   ensures result == d.sessionID
